@@ -540,7 +540,7 @@ def finish(pid, tier, seed, spec, reports, t_start, fatal=None, build_s=0.0):
     if broken: return 2
     return 0
 
-DEEP_BUDGET = int(os.environ.get('VK_DEEP_BUDGET', '1500'))
+DEEP_BUDGET = int(os.environ.get('VK_DEEP_BUDGET', '900'))
 
 COMMON_ASSUMPTIONS = [
     'bounded claim: only the input sizes / event counts listed under coverage.bounds are covered; nothing is claimed beyond them',
